@@ -5,9 +5,14 @@
    Just Cause 2: Multiplayer: the data packet is decoded to exactly the state
    (every variable, every player). The Ship and Battalion 1944: with the Valve
    round trip (C02) the query returns every field of the three replies under its
-   own name, the bat_* rules applied and removed. Eco (HTTP) is outside. *)
+   own name, the bat_* rules applied and removed. Eco: every member of the
+   Info object of the parsed JSON document arrives in the response field the
+   table names, whatever the order of the members and whatever unknown members
+   the document has; a missing member fails the query (JSON text -> value and
+   HTTP are run for real in the correspondence check, not modelled). *)
 From GD Require Import Base.Prelude Model.Strings Model.StrOps Model.Buffer Model.Net Model.Valve Model.Gamespy Model.Games.
 From GD Require Import Spec.Rand Spec.ValveSpec Spec.ValveGen Spec.GamespySpec Spec.GamesSpec Proofs.GamesProofs.
+From GD Require Import Model.View Model.Eco Spec.EcoSpec Proofs.EcoRoundtrip.
 From GD Require Import Proofs.Msafe Proofs.ValveTransport Proofs.Gamespy2Roundtrip Proofs.Jc2mRoundtrip Proofs.ValveGamesRoundtrip.
 
 Theorem c07_savage2_roundtrip : forall s, wf_savage2 s = true ->
@@ -95,3 +100,47 @@ Definition c07_full_statement_theship (st : vstate) (o : vopts) : Prop :=
   fst (theship_query (fun _ _ => Err Decompress) 27015 None (script_of (valve_script st o gathering_default))) = ship_expected st.
 Definition c07_full_statement_battalion (st : vstate) (o : vopts) : Prop :=
   fst (battalion_query (fun _ _ => Err Decompress) 7780 (script_of (valve_script st o gathering_default))) = bat_expected st.
+
+(* ---- Eco ---- *)
+(* the table the theorem speaks about: member of Info, its type, field of the response (games/eco/types.rs) *)
+Theorem c07_eco_table_means :
+  map (fun r => (fst (fst r), snd r)) eco_table =
+  [("External", "external"); ("GamePort", "port"); ("WebPort", "query_port"); ("IsLAN", "is_lan"); ("Description", "description");
+   ("DetailedDescription", "description_detailed"); ("EconomyDesc", "description_economy"); ("Category", "category");
+   ("OnlinePlayers", "players_online"); ("TotalPlayers", "players_maximum"); ("OnlinePlayersNames", "players"); ("AdminOnline", "admin_online");
+   ("TimeSinceStart", "time_since_start"); ("TimeLeft", "time_left"); ("Animals", "animals"); ("Plants", "plants"); ("Laws", "laws");
+   ("WorldSize", "world_size"); ("Version", "game_version"); ("SkillSpecializationSetting", "skill_specialization_setting"); ("Language", "language");
+   ("HasPassword", "has_password"); ("HasMeteor", "has_meteor"); ("DistributionStationItems", "distribution_station_items"); ("Playtimes", "playtimes");
+   ("DiscordAddress", "discord_address"); ("IsPaused", "is_paused"); ("ActiveAndOnlinePlayers", "active_and_online_players");
+   ("PeakActivePlayers", "peak_active_players"); ("MaxActivePlayers", "max_active_players"); ("ShelfLifeMultiplier", "shelf_life_multiplier");
+   ("ExhaustionAfterHours", "exhaustion_after_hours"); ("IsLimitingHours", "is_limiting_hours"); ("ServerAchievementsDict", "server_achievements_dict");
+   ("RelayAddress", "relay_address"); ("Access", "access"); ("JoinUrl", "connect")]%string.
+Proof. exact eq_refl. Qed.
+Print Assumptions c07_eco_table_means.
+
+Theorem c07_eco_roundtrip : forall ibits fint s before after top,
+  wf_eco s = true ->
+  (forall k, In k (map fst before) \/ In k (map fst after) -> ~ In k table_keys) ->
+  ~ In "Info"%string (map fst top) ->
+  eco_map (eco_doc ibits fint s before after top) = Ok (eco_expected s).
+Proof. exact eco_roundtrip. Qed.
+Print Assumptions c07_eco_roundtrip.
+
+Theorem c07_eco_nothing_fabricated : forall info key t name, In (key, t, name) eco_table -> ~ In key (map fst info) ->
+  exists e, eco_map (JObj [("Info"%string, JObj info)]) = Err e.
+Proof. exact eco_member_missing. Qed.
+Print Assumptions c07_eco_nothing_fabricated.
+
+Theorem c07_eco_member_twice_is_error : forall key t name v1 v2 a b c, In (key, t, name) eco_table ->
+  exists e, eco_map (JObj [("Info"%string, JObj (a ++ (key, v1) :: b ++ (key, v2) :: c))]) = Err e.
+Proof. exact eco_member_twice. Qed.
+Print Assumptions c07_eco_member_twice_is_error.
+
+(* the hypotheses can be met *)
+Example c07_eco_nonvacuous :
+  let s := [VBool true; VU32 3000; VU32 3001; VBool false; VStr (str "d"); VStr (str "long"); VStr (str "eco"); VStr (str "c"); VU32 2; VU32 4294967295;
+            VNames [str "ann"; str "bob"]; VBool true; VF64 4615063718147915776; VF64 0; VU32 1; VU32 2; VU32 3; VStr []; VStr (str "0.11"); VStr []; VStr (str "en");
+            VBool false; VBool true; VStr []; VStr []; VStr []; VBool false; VU32 0; VU32 5; VU32 9; VF64 1; VF64 2; VBool true; VDict [(str "k", str "v")];
+            VStr []; VStr (str "public"); VStr (str "eco://join")] in
+  wf_eco s = true /\ eco_map (eco_doc (fun _ => 0) (fun _ => None) s [("Extra"%string, JNull)] [("gamePort"%string, JStr (str "another member"))] [("Other"%string, JNull)]) = Ok (eco_expected s).
+Proof. vm_compute. split; reflexivity. Qed.
